@@ -466,7 +466,12 @@ def do_batch(eng, eng_name: str, prop: str, tier: str, seed: int) -> int:
         eng.prepare(seed, tier)
     pool = run_pool(eng_name, seed, tier, chunks, nproc, cfg["wall"], cfg.get("chunk_timeout", 600), merged)
     if merged.harness_errors:
-        raise HarnessError("; ".join(str(x)[-1500:] for x in merged.harness_errors[:3]))
+        if not merged.violations:
+            raise HarnessError("; ".join(str(x)[-1500:] for x in merged.harness_errors[:3]))
+        # some runs could not be judged AND others found violations: each violation carries its own explicit workload
+        # and is re-checked by replay, so they are reported (exit 1) rather than hidden behind exit 3
+        print(f"  warning: {len(merged.harness_errors)} run(s) could not be judged: " + str(merged.harness_errors[0])[-300:].replace("\n", " "))
+        merged.harness_errors = []
     if merged.runs == 0:
         raise HarnessError("no run completed")
     extra = {"pool": pool}
